@@ -156,7 +156,57 @@ Proof.
   apply (sends_writes _ _ Hall h b Hin).
 Qed.
 
+(* ---- creation from a host list (Consumer::from_hosts): the client is new, creation loads ALL metadata first ---- *)
+(* Either the call ended before anything happened (nothing assigned, max-wait out of range), or: the configuration
+   is written into the client (x0: same script, same trace, same client state), load_metadata_all runs from there
+   (C20_load_all_wire: it writes Metadata requests with an EMPTY topic list only - no topic is named), and everything
+   after it is a wire of data requests naming only partitions loaded by THAT load (state x1). *)
+Theorem C20_create_from_hosts_wire : forall (hs : list bytes) (calls : list cbuilder_call) (x : st) (r : res consumer) (x' : st),
+  consumer_create (inl hs) calls x = (r, x') ->
+  x' = x
+  \/ exists x0 rl x1,
+       script x0 = script x /\ trace x0 = trace x /\ cs (cl x0) = cs (cl x)
+       /\ load_metadata_all x0 = (rl, x1)
+       /\ sends (metadata_request []) (performed x0 x1)
+       /\ ext x1 x' /\ wire_ok (known (cs (cl x1))) (performed x1 x')
+       /\ (forall t p, known (cs (cl x')) t p <-> known (cs (cl x1)) t p).
+Proof.
+  intros hs calls x r x' H. unfold consumer_create in H.
+  destruct (cb_assign (fold_left cbuilder_apply calls (cbuilder_new (inl hs)))) as [|a0 ar];
+    [left; injection H as _ <-; reflexivity|].
+  unfold mbind at 1, get_client at 1 in H.
+  bind_inv H wait s1 H1 H2.
+  2: { left. unfold lift in H1. injection H1 as _ <-. reflexivity. }
+  2: { left. unfold lift in H1. injection H1 as _ <-. reflexivity. }
+  unfold lift in H1. injection H1 as _ <-. right.
+  unfold mbind at 1, set_client at 1 in H2.
+  match type of H2 with mbind _ _ ?s0 = _ => set (x0 := s0) in * end.
+  exists x0.
+  assert (Hfin : forall x1, ext x1 x1 /\ wire_ok (known (cs (cl x1))) (performed x1 x1)
+                            /\ (forall t p, known (cs (cl x1)) t p <-> known (cs (cl x1)) t p)).
+  { intros x1. destruct (proj1 (preorder_wire_rel (data_request (known (cs (cl x1))))) x1) as [E S].
+    split; [exact E|]. split; [exact S|]. intros t p. reflexivity. }
+  bind_inv H2 u x1 Hl Ht.
+  - exists (Ok u), x1. split; [reflexivity|]. split; [reflexivity|]. split; [reflexivity|]. split; [exact Hl|].
+    split; [exact (proj2 (C20_load_all_wire _ _ _ Hl))|].
+    match type of Ht with ?f x1 = _ => assert (Hk : keeps (WK x1) f) end.
+    { pose proof (preorder_WK x1) as HR. cbv zeta.
+      kbw x1; [apply keeps_get_client; exact HR|]. intros c1.
+      kbw x1; [apply keeps_lift; exact HR|]. intros subs.
+      kbw x1; [apply WK_load_consumed_offsets|]. intros consumed.
+      kbw x1; [apply WK_load_fetch_states|]. intros fetch.
+      kbw x1; [apply keeps_get_client; exact HR|]. intros c2. apply keeps_ret; exact HR. }
+    destruct (Hk _ _ _ Ht (proj1 preorder_same_topics x1)) as [[E S] T].
+    split; [exact E|]. split; [exact S|].
+    intros t p. unfold known, partitions_for. unfold same_topics in T. rewrite T. reflexivity.
+  - subst r. exists (Err u), x'. split; [reflexivity|]. split; [reflexivity|]. split; [reflexivity|].
+    split; [exact Hl|]. split; [exact (proj2 (C20_load_all_wire _ _ _ Hl))|]. apply Hfin.
+  - subst r. exists (Panic u), x'. split; [reflexivity|]. split; [reflexivity|]. split; [reflexivity|].
+    split; [exact Hl|]. split; [exact (proj2 (C20_load_all_wire _ _ _ Hl))|]. apply Hfin.
+Qed.
+
 Print Assumptions C20_create_from_client_wire.
+Print Assumptions C20_create_from_hosts_wire.
 Print Assumptions C20_create_from_client_keeps_topics.
 Print Assumptions C20_create_from_client_no_metadata.
 Print Assumptions C20_create_from_client_every_write.
@@ -172,3 +222,11 @@ Example C20_create_from_client_ex :
 Proof.
   vm_compute. split; [split; [reflexivity|]|reflexivity]. eexists; eexists. right. left. reflexivity.
 Qed.
+
+(* non-vacuity for the host-list form: the call gets as far as the Metadata exchange (connect, write, then the script
+   ends), so the right-hand alternative is the one that applies *)
+Example C20_create_from_hosts_ex :
+  let x := c20_st 1 in
+  let '(r, x') := consumer_create (inl [tag "h0:9092"]) [CWithTopic (tag "t2")] x in
+  length (performed x x') = 3%nat /\ is_ok r = false.
+Proof. vm_compute. split; reflexivity. Qed.
